@@ -188,6 +188,12 @@ func (g *GruleEngine) ExecuteWithContext(ctx context.Context, dataCtx ast.IDataC
 				// test if this rule entry v can execute.
 				can, err := ruleEntry.Evaluate(ctx, dataCtx, knowledge.WorkingMemory)
 				if err != nil {
+					if ctx.Err() != nil {
+						// the evaluation was refused because the context ended in the meantime, this is not a failed condition.
+						log.Error("Context canceled")
+
+						return ctx.Err()
+					}
 					log.Errorf("Failed testing condition for rule : %s. Got error %v", ruleEntry.RuleName, err)
 					if g.ReturnErrOnFailedRuleEvaluation {
 
